@@ -37,6 +37,12 @@ def variants(doc, rng):
             doc.crlf = crlf
             out.append((f'{"CRLF" if crlf else "LF"}{"" if final else "-nofinal"}', doc.text(0, final_newline=final)))
     doc.crlf = False
+    # lone CR line ends (classic Mac), mixed line ends in one file, blank lines after the last record
+    lf = doc.text(0)
+    ls_ = lf.split('\n')
+    out.append(('CR', lf.replace('\n', '\r')))
+    out.append(('mixed', ''.join(l_ + ['\n', '\r\n', '\r'][i_ % 3] for i_, l_ in enumerate(ls_[:-1]))))
+    out.append(('LF-trailing-blank-lines', lf + '\n\n'))
     return out
 
 
@@ -524,6 +530,22 @@ def run(ctx: Ctx):
             locale_level(ctx, cs, base)
         for cs in cases(ctx, 'c20b', 6 if ctx.tier == 'quick' else 30):
             large_file_level(ctx, cs, base)
+        if shard_i == 0:
+            # fresh processes (string first, file second; then the environment variants): ordinary scores and scores with one cell just
+            # below and well above the csv module's default field limit (131 072 characters) - whatever loads does with them, load does
+            from .. import envchild
+            from ..common import subseed
+            texts = []
+            for k_ in range(3):
+                dd, _ = make_doc(subseed(ctx.seed, 'c20env', k_), 'texty', measures=(1, 3), hostile_text=0.6)
+                t_ = dd.text(0)
+                if k_ == 1:
+                    t_ = '!!!OTL: ' + 'la' * 65000 + '\n' + t_          # 130 008 characters in one record
+                if k_ == 2:
+                    t_ = '!!!OTL: ' + 'la' * 70010 + '\n' + t_          # 140 028 characters: beyond the default field limit
+                texts.append(t_)
+            texts.reverse()     # the text beyond the limit is the first thing the fresh process imports (from the string, then from the file)
+            envchild.run_variants(ctx, texts, load_equals_loads_key='load-vs-loads')
     finally:
         shutil.rmtree(base, ignore_errors=True)
     ctx.floors = {'load': ('load_vs_loads', 100), 'dump': ('dump_vs_dumps', 100), 'cli': ('cli_runs', 40),
